@@ -73,6 +73,14 @@ Theorem C10_initialize_cp_feasible : forall (nrm : list R -> R), (forall v, 0 <=
 Proof. exact initialize_cp_nn_inv. Qed.
 Print Assumptions C10_initialize_cp_feasible.
 
+(* a user (weights, factors) initialisation: the weights go into the last factor, optional normalisation; entrywise
+   non-negative weights and declared factors stay so *)
+Theorem C10_initialize_cp_user_feasible : forall (nrm : list R -> R), (forall v, 0 <= nrm v) ->
+  forall (D : nat -> Prop) (w : list R) (Fs : list (list (list R))) (nm : bool),
+  vnn w -> (forall m, D m -> mnn (nth m Fs [])) -> cp_inv D (initialize_cp_user_norm Rops nrm w Fs nm).
+Proof. exact initialize_cp_user_norm_inv. Qed.
+Print Assumptions C10_initialize_cp_user_feasible.
+
 Theorem C10_initialize_tucker_feasible : forall (core : tensor R) (raw : list (list (list R))),
   tk_inv (initialize_tucker_nn Rops core raw).
 Proof. exact initialize_tucker_nn_inv. Qed.
